@@ -16,3 +16,4 @@ pub mod g4;
 pub mod a2;
 pub mod g3;
 pub mod d5;
+pub mod t14;
